@@ -12,6 +12,8 @@ cd harness
 rc=0
 for d in c[0-9][0-9]*; do
   [ -d "$d" ] || continue
+  # packages that are compiled into a repository package through -overlay are built by ./check itself
+  if grep -qs "go:build verif_overlay" "$d"/*.go; then continue; fi
   go test -c -tags verif -o "$out/$d.test" "./$d" || rc=1
 done
 go vet -tags verif ./internal/... >/dev/null 2>&1 || true
